@@ -10,6 +10,7 @@ import RpyModel.Drv.C04
 import RpyModel.Drv.C10
 import RpyModel.Drv.C19
 import RpyModel.Drv.C03
+import RpyModel.Drv.Flow
 open Lean
 
 def dispatch (R : Type) [Num R] [Inhabited R] [NatCast R] (kind : String) (j : Json) : Except String Json :=
@@ -24,6 +25,7 @@ def dispatch (R : Type) [Num R] [Inhabited R] [NatCast R] (kind : String) (j : J
   | "ip_fit" => Drv.handleIpFit R j
   | "metrics" => Drv.handleMetrics R j
   | "graph_expr" => Drv.handleGraphExpr j
+  | "scenario" => Drv.handleScenario R j
   | "graph_check" => Drv.handleGraphCheck j
   | "graph_prog" => Drv.handleGraphProg j
   | "eff_matrix" => Drv.handleEffMatrix R j
